@@ -340,6 +340,8 @@ class Repo:
             f = self.resolve_expr(mod, e.func, _seen)
             if f is not None and f.qual == "autograd.util.func" and len(e.args) == 1:
                 return self.resolve_expr(mod, e.args[0], _seen)
+            if f is not None and f.qual == "builtins.getattr" and len(e.args) == 2 and isinstance(e.args[1], ast.Constant) and isinstance(e.args[1].value, str):
+                return self.resolve_expr(mod, ast.Attribute(value=e.args[0], attr=e.args[1].value, ctx=ast.Load()), _seen)
             return None
         if isinstance(e, ast.Subscript):
             # anp.__dict__["ravel"]
